@@ -101,6 +101,8 @@ def check_case(rn, content, word, v, label=""):
     ff, cc = res[0], res[1]
     if len(res) > 2 and res[2][1]:
         raise Violation("collecting-depends-on-prior-list-content", "into a list that already holds an earlier error: " + res[2][1], case)
+    if len(res) > 3 and res[3][1]:
+        raise Violation("verdict-depends-on-prefix-extras-or-tail", res[3][1], case)
     if ff[0] == "EXC":
         raise Violation("failfast-other-exception:" + ff[1].split(":")[0], f"{ff[1]}", case)
     if cc[0] == "EXC":
